@@ -674,6 +674,12 @@ func childMain(cfg props.Cfg) int {
 	for i := 0; i < nStress; i++ {
 		receiverStress(em, rng)
 	}
+	// last: a stuck Put would leave a goroutine behind and spoil the quiescence baseline of the others
+	for i := 0; i < nStress; i++ {
+		if !closedFullReceiver(em, rng) {
+			break
+		}
+	}
 	em.Done()
 	return 0
 }
@@ -1184,4 +1190,82 @@ func intervals(recs []rec, outs []output, drained map[int64]bool) []string {
 		}
 	}
 	return problems
+}
+
+// closedFullReceiver: a wire.Receiver that nobody reads fills up and the next Put into the relay waits
+// inside it. Closing the receiver has to release that Put: the envelope still reaches the consumer
+// subscribed behind the receiver exactly once, and so do all later envelopes. The moment of the
+// Close is random (before, while or after the queue filled up). A run that does not finish is a
+// violation only if the goroutine dump shows the producer parked in a plain channel send inside
+// Receiver.Put of the closed receiver, which nothing can ever release (nobody reads it); any other
+// unfinished run is inconclusive. Returns false if the run did not finish (the caller stops then).
+func closedFullReceiver(em *childrun.Emitter, rng *rand.Rand) bool {
+	relay := wire.NewRelay()
+	recv := wire.NewReceiver()
+	var clk int64
+	tail := &recConsumer{id: 1, mask: ^uint(0), clk: &clk}
+	all := func(*wire.Envelope) bool { return true }
+	if err := relay.Subscribe(recv, all); err != nil {
+		em.Inconclusive("closed full receiver: subscribe failed: " + err.Error())
+		return true
+	}
+	if err := relay.Subscribe(tail, all); err != nil {
+		em.Inconclusive("closed full receiver: subscribe failed: " + err.Error())
+		return true
+	}
+	total := 20 + rng.Intn(40)
+	wait := time.Duration(rng.Intn(3000)) * time.Microsecond
+	done := make(chan struct{})
+	go func() {
+		defer close(done)
+		for i := 1; i <= total; i++ {
+			relay.Put(envelope(int64(i)))
+		}
+	}()
+	time.Sleep(wait)
+	tail.mu.Lock()
+	atClose := len(tail.got)
+	tail.mu.Unlock()
+	_ = recv.Close()
+	em.Count("closed_full_receiver_runs", 1)
+	em.Case(fmt.Sprintf("closed-full-receiver|%d|%d", total, atClose), atClose < total)
+	if atClose < total {
+		em.Count("closed_full_receiver_runs_with_puts_pending_at_the_close", 1)
+	}
+	select {
+	case <-done:
+	case <-time.After(20 * time.Second):
+		buf := make([]byte, 1<<20)
+		buf = buf[:runtime.Stack(buf, true)]
+		for _, blk := range strings.Split(string(buf), "\n\n") {
+			if strings.Contains(blk, "[chan send") && strings.Contains(blk, "go-perun/wire.(*Receiver).Put") {
+				em.Violation("C18/receiver/put-parked-in-closed-receiver", fmt.Sprintf("a Put into the relay that waited in a full wire.Receiver was not released when the receiver was closed: %d of %d envelopes reached the consumer subscribed behind it, the producer is parked in a channel send that nothing can release", func() int { tail.mu.Lock(); defer tail.mu.Unlock(); return len(tail.got) }(), total),
+					map[string]any{"envelopes": total, "delivered_at_close": atClose, "goroutine": trunc(blk, 3000)})
+				return false
+			}
+		}
+		em.Inconclusive("closed full receiver: producer did not finish (watchdog)")
+		return false
+	}
+	seen := map[int64]int{}
+	tail.mu.Lock()
+	for _, d := range tail.got {
+		seen[d.env]++
+	}
+	tail.mu.Unlock()
+	lost, dup := 0, 0
+	for id := int64(1); id <= int64(total); id++ {
+		switch n := seen[id]; {
+		case n == 0:
+			lost++
+		case n > 1:
+			dup++
+		}
+	}
+	if lost > 0 || dup > 0 {
+		em.Violation("C18/receiver/closed-receiver-lost-or-duplicated", fmt.Sprintf("%d envelopes were put into a relay with an unread wire.Receiver (closed after %d deliveries) in front of a recording consumer: %d never reached the recording consumer, %d reached it twice", total, atClose, lost, dup),
+			map[string]any{"envelopes": total, "delivered_at_close": atClose, "lost": lost, "duplicated": dup})
+	}
+	_ = relay.Close()
+	return true
 }
